@@ -1449,13 +1449,22 @@ func FunExpr(query *Query, current Map, expr *sqlparser.FuncExpr, opts ...ExprOp
 				return nil, e
 			}
 			var rs any
-			var err error
+			var asyncErr error
 			query.wg.Add(1)
 			go func() {
-				rs, err = function(query, current, nil, slice)
-				query.wg.Done()
+				defer query.wg.Done()
+				defer func() {
+					if r := recover(); r != nil {
+						asyncErr = asError(r)
+					}
+				}()
+				rs, asyncErr = function(query, current, nil, slice)
 			}()
-			return &rs, err
+			// the outcome of the call is only known once it has been awaited
+			query.postProcessors = append(query.postProcessors, func() error {
+				return asyncErr
+			})
+			return &rs, nil
 		}
 	case "spin":
 		{
